@@ -305,6 +305,38 @@ func locateRef(c *matchCase, doc any) ([]hit, error) {
 	return out, nil
 }
 
+// asImplemented rewrites a target into what the streaming matcher takes it for: every slice selects every element; a target
+// with a negative index selects nothing (ok false).
+func asImplemented(tg jp.Expr) (jp.Expr, bool) {
+	out := make(jp.Expr, 0, len(tg))
+	for _, f := range tg {
+		switch tf := f.(type) {
+		case jp.Nth:
+			if tf < 0 {
+				return nil, false
+			}
+		case jp.Slice:
+			out = append(out, jp.Slice{0})
+			continue
+		case jp.Union:
+			var keep []any
+			for _, u := range tf {
+				if i, ok := u.(int64); ok && i < 0 {
+					continue
+				}
+				keep = append(keep, u)
+			}
+			if len(keep) == 0 {
+				return nil, false
+			}
+			out = append(out, jp.Union(keep))
+			continue
+		}
+		out = append(out, f)
+	}
+	return out, true
+}
+
 func isPrefix(q, p jp.Expr) bool {
 	for i := range q {
 		if q[i] != p[i] {
@@ -456,11 +488,48 @@ func propC17(cx *sim.Ctx) {
 			}
 		}
 	}
+	// The two known findings about array fragments are exact statements of what the streaming matcher does instead: a slice
+	// is read as "every element", a negative index never matches. asImpl is parse-then-locate under that reading; a run with
+	// such a target that differs from it as well shows something else than the known finding. (Not judged when a filter
+	// target is present: its own findings get in the way.)
+	var asImpl []hit
+	judgeAsImpl := false
+	if (c.Feat["slice"] == true || c.Feat["negative_index"] == true) && c.Feat["filter"] != true {
+		c2 := *c
+		c2.Targets = nil
+		for _, tg := range c.Targets {
+			if r, ok := asImplemented(tg); ok {
+				c2.Targets = append(c2.Targets, r)
+			}
+		}
+		if w2, err2 := locateRef(&c2, doc); err2 == nil {
+			asImpl, judgeAsImpl = w2, true
+		}
+	}
+	var cur *matchOutcome
+	differsAsImpl := func() bool {
+		if !judgeAsImpl || cur == nil {
+			return false
+		}
+		if len(cur.Hits) != len(asImpl) {
+			return true
+		}
+		for i := range asImpl {
+			if cur.Hits[i].Path != asImpl[i].Path {
+				return true
+			}
+			if ok, _ := ref.SameValue(cur.Hits[i].Value, asImpl[i].Value); !ok {
+				return true
+			}
+		}
+		return false
+	}
 	attrs := func(extra ...any) map[string]any {
 		m := map[string]any{}
 		for k, v := range c.Feat {
 			m[k] = v
 		}
+		m["differs_from_slice_and_negative_index_reading"] = differsAsImpl()
 		m["filter_multi_match"] = filterMulti
 		m["filter_with_other_targets"] = c.Feat["filter"] == true && len(c.Targets) >= 2
 		m["maxint_boundary_literal"] = hasMaxIntBoundaryLiteral(in)
@@ -536,6 +605,8 @@ func propC17(cx *sim.Ctx) {
 	}
 	vsRef := func(o *matchOutcome) {
 		cx.Exec()
+		cur = o
+		defer func() { cur = nil }()
 		if bad(o) {
 			return
 		}
